@@ -87,6 +87,8 @@ func checkC08(c *Ctx) {
 
 	c08R5(c)
 	c08R6(c)
+	c.Rule("C08.R7", "acknowledged bytes reach the reader: receiver.buffer is appended to only by processIntoBuffer, consumed only by the receiver's read function, never reset, truncated, exposed or replaced (see C16.R6) (E4 who-may-call, classified by method)")
+	recvBufferOwners(c, "C08.R7")
 	c08R2(c)
 	c08R3(c)
 	c08R4(c)
